@@ -15,6 +15,7 @@ import ValidaProofs.Lemmas.C03Step
 import ValidaProofs.Lemmas.C03Prim
 namespace ValidaProofs
 open Valida ValidaGen ValidaSpec
+open C03
 
 /-- children matched by a part, as a total function (a failing step matches nothing) -/
 def childrenOf (p : Part) (node : PyVal) : List (PyVal × PyVal) :=
@@ -29,7 +30,7 @@ def StepsOk (parts : List Part) : Prop := ∀ p ∈ parts, ∀ node, ∃ kvs, st
 /-! ### the frontier walk is the depth-first walk -/
 
 /-- under `StepsOk`, `childrenOf` is what `stepNode` returns -/
-theorem stepsOk_childrenOf (parts : List Part) (hs : StepsOk parts) :
+theorem C03.stepsOk_childrenOf (parts : List Part) (hs : StepsOk parts) :
     ∀ p ∈ parts, ∀ node, stepNode p node = .ok (childrenOf p node) := by
   intro p hp node
   obtain ⟨kvs, h⟩ := hs p hp node
